@@ -224,9 +224,15 @@ func TestVerifC08(t *testing.T) {
 	r := ev.Begin("C08", "sched")
 	defer r.End(t)
 	r.Rule = "executions = all goroutine schedules within the deviation bound of the instrumented real Advertiser (min=max=4s, real terminator) with a stop thread (set signal, cancel) placed at: idle; a unicast response pending in its random delay; a solicitation arriving at the stop instant; a rate-limited periodic RA due at the stop instant; armed to become runnable exactly when the 2nd WriteTo / the unicast response's WriteTo / the 3rd forwarding read begins (with transmit latency modelled as an extra scheduling point inside WriteTo); x SIGTERM, SIGHUP (SIGINT for two); random delay draws are environment choices {0, mid, max}; oracle on the ordered observation log: Run returns nil within 1s, exactly one zero-lifetime multicast RA iff terminating, equal to the normal RA otherwise, no transmission begins after it, no I/O after Run returned or on a closed connection"
-	bound := 1
-	if r.Thorough() {
-		bound = 2
+	name := func(c c08Case) string { return c.Name }
+	if !r.Thorough() {
+		exploreCases(t, r, c08Cases(), name, c08Scenario, exploreOpts{Bound: 1})
+		return
 	}
-	exploreCases(t, r, c08Cases(), func(c c08Case) string { return c.Name }, c08Scenario, exploreOpts{Bound: bound})
+	// Thorough: bound 2 completely, then bound 3 under a per-case wall-clock budget
+	// (a cap is reported as exhaustive=false for bound 3; bound 2 stays complete).
+	exploreCases(t, r, c08Cases(), name, c08Scenario, exploreOpts{Bound: 2})
+	if r.Replay == nil {
+		exploreCases(t, r, c08Cases(), name, c08Scenario, exploreOpts{Bound: 3, Budget: 40 * time.Second})
+	}
 }
